@@ -849,6 +849,118 @@ func TestVerifC02(t *testing.T) {
 		}, emit)
 	}
 
+	// --- round 9: rule changes queued while an engine rebuild is pending
+	// (queue mode of the shared harness, Model/FilterQueue.v): the real
+	// handlers, the loop's first arm in two halves (busy phases) and the
+	// real updatesLoop; the LAST change names a CNAME target / an address /
+	// a hint of the answers; once the queue is served the answers revealing
+	// them are replaced
+	{
+		qa := func(ps *plServer, name string, qt uint16, ans *dns.Msg, extra ...string) {
+			ps.qAsk(out, &plQuery{Name: name, QType: qt, Addr: cli, Answer: ans}, emit, extra...)
+		}
+		cnameAns := func() *dns.Msg {
+			return plMsg(0, plCNAME("www.example.", 401, "cdn.example."), plCNAME("cdn.example.", 402, "B.a.test."), plA("b.a.test.", 403, "93.184.216.34"))
+		}
+		addrAns := func() *dns.Msg {
+			return plMsg(0, plTXT("www.example.", 404, "noise"), plA("www.example.", 405, "93.184.216.34"), plA("www.example.", 406, "1.2.3.4"))
+		}
+		hintAns := func() *dns.Msg {
+			return plMsg(0, plHTTPS("www.example.", 407, []string{"93.184.216.34"}, []string{"2001:db8::1"}, true))
+		}
+		first := []*vfRule{{Pattern: "||xa.test^"}}
+		mid := []*vfRule{{Pattern: "||xa.test^"}, {Pattern: "||c.b.a.test^"}}
+		last := []*vfRule{{Pattern: "||b.a.test^"}, {Pattern: "||1.2.3.4^"}, {Pattern: "||2001:db8::1^"}}
+		for variant := 0; variant < 6; variant++ {
+			c := base()
+			c.Block = nil
+			c.Lists = []*plList{{Name: "ads", Rules: []*vfRule{{ID: 100, Pattern: "||x.test^"}}},
+				{Name: "cdn", Rules: []*vfRule{{ID: 110, Pattern: "||b.a.test^"}, {ID: 111, Pattern: "||1.2.3.4^"}, {ID: 112, Pattern: "||2001:db8::1^"}}}}
+			ps := plNewServer(t, c)
+			ps.queueMode = true
+			if variant < 4 {
+				// the list naming the records starts switched off
+				ps.qSetURL(t, out, 1, false)
+				ps.qLoop(t, out)
+			}
+			qa(ps, "www.example.", dns.TypeA, cnameAns(), "prelude-queue-before-changes")
+			switch variant {
+			case 0:
+				// the loop busy installing the first call's task while two more arrive
+				ps.qSetRules(t, out, first)
+				ps.qTake(t, out)
+				ps.qSetRules(t, out, mid)
+				ps.qSetRules(t, out, last)
+				ps.qInstall(t, out)
+				qa(ps, "www.example.", dns.TypeA, cnameAns())
+				ps.qTake(t, out)
+				ps.qInstall(t, out)
+			case 1:
+				// the loop away, two calls, then the real loop
+				ps.qSetRules(t, out, mid)
+				ps.qSetRules(t, out, last)
+				qa(ps, "www.example.", dns.TypeA, addrAns())
+				ps.qLoop(t, out)
+			case 2:
+				// three calls behind a task the loop holds, the real loop serves the rest
+				ps.qTouch(t, out)
+				ps.qTake(t, out)
+				ps.qSetRules(t, out, first)
+				ps.qSetRules(t, out, mid)
+				ps.qSetRules(t, out, last)
+				ps.qInstall(t, out)
+				ps.qLoop(t, out)
+			case 3:
+				// the last change switches the list naming the records on, behind a queued set_rules
+				ps.qSetRules(t, out, first)
+				ps.qTake(t, out)
+				ps.qSetRules(t, out, mid)
+				ps.qSetURL(t, out, 1, true)
+				ps.qInstall(t, out)
+				ps.qLoop(t, out)
+			case 4:
+				// the other direction: the last change removes the rules (list off, rules cleared): delivered
+				ps.qSetRules(t, out, last)
+				ps.qTake(t, out)
+				ps.qSetURL(t, out, 1, false)
+				ps.qSetRules(t, out, first)
+				ps.qInstall(t, out)
+				qa(ps, "www.example.", dns.TypeA, addrAns())
+				ps.qLoop(t, out)
+			default:
+				// the list goes off; the last call no longer names the CNAME target but another one
+				ps.qSetURL(t, out, 1, false)
+				ps.qTake(t, out)
+				ps.qSetRules(t, out, last)
+				ps.qSetRules(t, out, append(append([]*vfRule{}, last[1:]...), &vfRule{Pattern: "||edge.example^"}))
+				ps.qInstall(t, out)
+				ps.qLoop(t, out)
+			}
+			qa(ps, "www.example.", dns.TypeA, cnameAns(), "prelude-queue-last-change-decides-records", "prelude-queue-record-cname")
+			qa(ps, "www.example.", dns.TypeA, addrAns(), "prelude-queue-last-change-decides-records", "prelude-queue-record-address")
+			qa(ps, "www.example.", dns.TypeHTTPS, hintAns(), "prelude-queue-last-change-decides-records", "prelude-queue-record-hint")
+			qa(ps, "www.example.", dns.TypeA, plMsg(0, plCNAME("www.example.", 408, "edge.example."), good), "prelude-queue-last-change-decides-records")
+			out.Emit(ps.historyCase())
+		}
+	}
+	nQ := out.Scale(16, 500)
+	for i := 0; i < nQ; i++ {
+		c := plGenCfg(rnd, c02Targets)
+		c.ProtEnabled, c.Deadline, c.Filtering = true, 0, true
+		if rnd.Chance(2, 3) {
+			c.Clients, c.Svcs, c.SB, c.Par = nil, nil, false, false
+		}
+		plGenLists(rnd, c, c02Targets)
+		ps := plNewServer(t, c)
+		ps.queueMode = true
+		qr := rnd
+		plRunQueue(t, out, qr, ps, 12, c02Targets, func(string) *plQuery {
+			name := vfMixCase(qr, vfPick(qr, []string{"www.example", "www.example", "cdn.example", "x.test"})) + "."
+			qt := vfPick(qr, []uint16{dns.TypeA, dns.TypeA, dns.TypeAAAA, dns.TypeHTTPS})
+			return &plQuery{Name: name, QType: qt, Addr: netip.MustParseAddr(vfPick(qr, plClientAddrs)), Answer: shaped(c02Answer(qr, name, qt), name)}
+		}, emit)
+	}
+
 	// --- round 5: the protection switch as part of the history (real
 	// handlers, the clock an input): an answer revealing a blocked CNAME target
 	// / address is replaced exactly while protection is in force by the last
